@@ -45,6 +45,8 @@ type c18Op struct {
 	ID     int    `json:"id,omitempty"`      // distinguishing label value
 	EndSec int    `json:"end_sec,omitempty"` // end relative to the instant of the op; <0 past; 0 = no end given (api level only)
 	DtSec  int    `json:"dt_sec,omitempty"`  // advance
+	// burst (provider, api): Count new alerts of one name (ids 1000+100*step+j, end in EndSec) in ONE Put / POST
+	Count int `json:"count,omitempty"`
 }
 
 type c18BucketScenario struct {
@@ -103,6 +105,12 @@ func c18GenBucket(level []string) func(t *rapid.T) c18BucketScenario {
 				}
 				sc.Ops = append(sc.Ops, op)
 			case k <= 7:
+				if (sc.Level == "provider" || sc.Level == "api") && rapid.IntRange(0, 3).Draw(t, "burst") == 0 {
+					// several new alerts of one name in one submission: with a bucket that is full or nearly full
+					// more than one of them is refused by the same call
+					sc.Ops = append(sc.Ops, c18Op{Kind: "burst", Name: mainName, Count: rapid.IntRange(2, 5).Draw(t, "burstCount"), EndSec: rapid.SampledFrom(c18EndsFut).Draw(t, "burstEnd")})
+					continue
+				}
 				sc.Ops = append(sc.Ops, c18Op{Kind: "advance", DtSec: rapid.SampledFrom(c18Advance).Draw(t, "dt")})
 			default:
 				sc.Ops = append(sc.Ops, c18Op{Kind: "gc"})
@@ -320,6 +328,38 @@ func (s *c18ProviderSys) upsert(name string, id, endSec int, now time.Time) c18O
 	return out
 }
 
+// burst at provider level: all alerts in one Put.
+func (s *c18ProviderSys) burst(name string, ids []int, endSec int, now time.Time) (stored []bool, dTotal, dName float64, errs string) {
+	end := now.Add(time.Duration(endSec) * time.Second)
+	var as []*types.Alert
+	for _, id := range ids {
+		as = append(as, c18Alert(name, id, end, now))
+	}
+	t0, n0, err := s.counters(name)
+	if err != nil {
+		return nil, 0, 0, "gather: " + err.Error()
+	}
+	func() {
+		defer func() {
+			if p := recover(); p != nil {
+				errs = fmt.Sprintf("Put panicked: %v", p)
+			}
+		}()
+		if err := s.alerts.Put(context.Background(), as...); err != nil {
+			errs = "Put: " + err.Error()
+		}
+	}()
+	t1, n1, err := s.counters(name)
+	if err != nil {
+		return nil, 0, 0, "gather: " + err.Error()
+	}
+	for _, a := range as {
+		got, gerr := s.alerts.Get(a.Fingerprint())
+		stored = append(stored, gerr == nil && got.UpdatedAt.Equal(now))
+	}
+	return stored, t1 - t0, n1 - n0, errs
+}
+
 // gc at provider level: let the GC ticker (created at the epoch, period gcSec)
 // fire at least once; the instant reported is the last tick.
 func (s *c18ProviderSys) gc() ([]string, time.Time) {
@@ -455,6 +495,48 @@ func (s *c18APISys) upsert(name string, id, endSec int, now time.Time) c18Outcom
 	return out
 }
 
+// burst at API level: all alerts in one POST.
+func (s *c18APISys) burst(name string, ids []int, endSec int, now time.Time) (stored []bool, dTotal, dName float64, errs string) {
+	end := now.Add(time.Duration(endSec) * time.Second)
+	var batch []any
+	for _, id := range ids {
+		batch = append(batch, map[string]any{"labels": map[string]string{"alertname": name, "id": fmt.Sprintf("i%d", id)},
+			"startsAt": now.UTC().Format(c18TimeFmt), "endsAt": end.UTC().Format(c18TimeFmt)})
+	}
+	body, _ := json.Marshal(batch)
+	t0, n0, err := s.counters(name)
+	if err != nil {
+		return nil, 0, 0, "gather: " + err.Error()
+	}
+	func() {
+		defer func() {
+			if p := recover(); p != nil {
+				errs = fmt.Sprintf("POST /api/v2/alerts panicked: %v", p)
+			}
+		}()
+		req := httptest.NewRequest(http.MethodPost, "/api/v2/alerts", bytes.NewReader(body))
+		req.Header.Set("Content-Type", "application/json")
+		rec := httptest.NewRecorder()
+		s.h.ServeHTTP(rec, req)
+		if rec.Code != http.StatusOK {
+			errs = fmt.Sprintf("POST /api/v2/alerts with %d alerts: %d %s", len(ids), rec.Code, rec.Body.String())
+		}
+	}()
+	t1, n1, err := s.counters(name)
+	if err != nil {
+		return nil, 0, 0, "gather: " + err.Error()
+	}
+	listed, _, lerr := s.list()
+	if lerr != nil {
+		return nil, 0, 0, lerr.Error()
+	}
+	for _, id := range ids {
+		_, ok := listed[c18FP(name, id)]
+		stored = append(stored, ok)
+	}
+	return stored, t1 - t0, n1 - n0, errs
+}
+
 func (s *c18APISys) list() (map[string]c18Listed, bool, error) {
 	listed, err := s.get()
 	if err != nil {
@@ -500,7 +582,7 @@ func c18ExecBucket(sc c18BucketScenario) (res pbt.Result) {
 
 		model := ref.NewC18Admitted(sc.N)
 		shadow := c18Shadow{n: sc.N, b: map[string]map[string]time.Time{}}
-		var sawRefusal, sawGCUnexpired, sawResend, sawEvictExpired, sawFull, sawLateCopy bool
+		var sawRefusal, sawGCUnexpired, sawResend, sawEvictExpired, sawFull, sawLateCopy, sawMultiRefusal bool
 
 		for i, op := range sc.Ops {
 			// the i-th op happens at whole seconds + (i+1) ms: an end (op instant +
@@ -546,6 +628,44 @@ func c18ExecBucket(sc c18BucketScenario) (res pbt.Result) {
 					res.Add(pbt.V("late-copy-applied", "%s: a late copy (update time one hour before the stored version's) changed the held alert: before end %s, after %v (err %v)", where, before.EndsAt, after, gerr).With("level", sc.Level))
 				}
 				sawLateCopy = true
+			case "burst":
+				bs, ok := sys.(interface {
+					burst(name string, ids []int, endSec int, now time.Time) ([]bool, float64, float64, string)
+				})
+				if !ok {
+					continue
+				}
+				name := c18Names[op.Name%len(c18Names)]
+				var ids []int
+				for j := 0; j < op.Count; j++ {
+					ids = append(ids, 1000+100*i+j)
+				}
+				stored, dTotal, dName, errs := bs.burst(name, ids, op.EndSec, now)
+				if errs != "" {
+					res.Add(pbt.V("submission-failed", "%s: a submission of %d valid alerts failed: %s", where, len(ids), errs).With("level", sc.Level))
+					return
+				}
+				end := now.Add(time.Duration(op.EndSec) * time.Second)
+				refused := 0
+				for j, id := range ids {
+					fp := c18FP(name, id)
+					if stored[j] {
+						model.Accept(name, fp, end)
+						shadow.accept(name, fp, end, now)
+						continue
+					}
+					refused++
+					sawRefusal = true
+					if !model.RefusalAllowed(name, fp, now) {
+						res.Add(pbt.V("refused-with-room", "%s: alert %d of the batch is not held although only %d of %d unexpired alerts of %s are admitted", where, j, len(model.Unexpired(name, now)), sc.N, name).With("level", sc.Level))
+					}
+				}
+				if refused >= 2 {
+					sawMultiRefusal = true
+				}
+				if dTotal != float64(refused) || dName != float64(refused) {
+					res.Add(pbt.V("refusal-report", "%s: %d alerts of the batch are not held, %s moved by %v in total and %v for alertname=%s", where, refused, c18LimitedMetric, dTotal, dName, name).With("level", sc.Level))
+				}
 			case "upsert":
 				name := c18Names[op.Name%len(c18Names)]
 				fp := c18FP(name, op.ID)
@@ -656,6 +776,9 @@ func c18ExecBucket(sc c18BucketScenario) (res pbt.Result) {
 		if sawLateCopy {
 			res.Class("late-copy-of-held-alert")
 		}
+		if sawMultiRefusal {
+			res.Class("several-refusals-in-one-submission")
+		}
 	})
 	return res
 }
@@ -704,7 +827,7 @@ func (s *c18Shadow) gc(now time.Time) {
 
 var c18Epoch = time.Date(2000, 1, 1, 0, 0, 0, 0, time.UTC)
 
-const c18BucketRule = "history of upsert(name∈2, id from a universe of N+1..N+3, end ∈ future/past; store level: one in six is a late copy whose update time lies before the held version's and must change neither the alert nor the limit accounting) / advance / GC ops, limit N∈1..4, " +
+const c18BucketRule = "history of upsert(name∈2, id from a universe of N+1..N+3, end ∈ future/past; store level: one in six is a late copy whose update time lies before the held version's and must change neither the alert nor the limit accounting) / advance / GC ops (provider and API level also: bursts of 2-5 new alerts of one name in ONE Put / POST, so that one call refuses several; every member is held or counted as refused, the call itself never fails), limit N∈1..4, " +
 	"interpreted in a bubble against limit.Bucket, store.Alerts, provider mem.Alerts; non-trivial iff ≥1 refusal was announced AND a GC ran while ≥1 admitted alert was unexpired"
 
 func TestC18Bucket(t *testing.T) {
